@@ -25,6 +25,7 @@ from . import C05
 EXPLANATION = ("Struct layouts/constants from rustc against the specification tables; request helpers are checked by provenance of the "
                "command constant and of the response-check operand/result; command order and backing lifetime are dominance / "
                "must-precede queries on the inlined MIR of the GPU operations with the helpers as events.")
+CONFIGS = ['def', 'alloc', 'def-rel']    # these drivers need the `alloc` feature
 FLOORS = {'gpu_helpers': 9, 'gpu_commands': 13, 'sound_checks': 5}
 GPU = 'device::gpu::VirtIOGpu'
 GPU_CMDS = {'GET_DISPLAY_INFO': 0x100, 'RESOURCE_CREATE_2D': 0x101, 'RESOURCE_UNREF': 0x102, 'SET_SCANOUT': 0x103, 'RESOURCE_FLUSH': 0x104,
